@@ -183,6 +183,23 @@ def run(ck: Check) -> None:
             ck.notes.append("conversion raised: " + repr(e)[:120])
         if not ok:
             ck.violation("a conversion path among bytes / hex / key objects does not return the same value", {"seed": seed.hex()}, "conversion-roundtrip")
+    # conversions never modify what they are given: a caller's bytearray holds the same bytes afterwards, and converting it again gives the same key
+    for seed in seeds[:8]:
+        ck.oracle_checks += 1
+        ck.evaluations += 1
+        try:
+            ba = bytearray(seed)
+            k1 = P.from_bytes(ba)
+            same_after = bytes(ba) == seed
+            k2 = P.from_bytes(ba)
+            ok = same_after and bytes(ba) == seed and P.to_bytes(k1) == seed and P.to_bytes(k2) == seed
+        except Exception as e:  # noqa: BLE001
+            ok = False
+            ck.notes.append("conversion from bytearray raised: " + repr(e)[:120])
+        if not ok:
+            ck.violation("converting a key from a caller's bytearray changed the caller's buffer, or converting the same buffer again gives another key",
+                         {"seed": seed.hex(), "buffer_after": bytes(ba).hex()}, "conversion-mutates-argument")
+            break
     # key files
     d = impl.scratch_dir()
     os.environ["CCTV_KEYDIR"] = "elsewhere"
